@@ -101,6 +101,9 @@ def _absence_verdict(prog, f, ev_node, loose_nodes, roots):
     cfg = f.cfg
     if prog.opaque_calls(f, [r for r in roots if r]):
         return None, 'a call that receives the node may do it'
+    others = [e for e in link_events(prog, f) if e.kind == 'OTHER']
+    if others:
+        return None, 'the function also changes child lists in a way that is not modelled (`%s`)' % unparse(others[0].ast)[:40]
     if loose_nodes and not _uncovered_path(cfg, ev_node, loose_nodes):
         return None, 'a candidate partner exists on every path but could not be matched'
     # a candidate under the very conditions of the event (tested a second time in a separate `if`) is skipped only on
@@ -213,6 +216,14 @@ def r_link(prog, tier):
                         if c.kind == 'CLR' and _same_value(f, c.q, c.node, p.q, p.node) and (names_in(c.value) & src):
                             found = c
                             why = 'element of the list assigned as `%s.children` (`%s`)' % (unparse(p.q), unparse(c.ast))
+            if found is None:
+                # the node is collected in a local list that is assigned (sorted / copied / as it is) as the children
+                for (lst, an) in _local_list_appends(f, p.x):
+                    if cfg.same_loop(an, p.node) and cfg.always_with(p.node, an):
+                        for c in evs:
+                            if c.kind == 'CLR' and lst in names_in(c.value) and path(c.q) == path(p.q):
+                                found = c
+                                why = 'collected in `%s`, which becomes `%s.children` (`%s`)' % (lst, unparse(p.q), unparse(c.ast)[:50])
             verdict, note = True, ''
             if found is None:
                 loose = [a.node for a in atts if path(a.x) is None or path(p.x) is None or path(a.x) == path(p.x)
@@ -338,11 +349,20 @@ def r_link(prog, tier):
                         reatt = a
                         break
                 ok = bool(snaps) and reatt is not None
+                why4 = ('snapshot %s, re-attached by `%s`' % (snaps, unparse(reatt.ast))) if ok else \
+                    'children are dropped: no snapshot taken before / no element of it attached after'
+                if not ok and snaps:
+                    # a snapshot exists; nothing is re-attached after this statement.  Fine where the snapshot is known to
+                    # be empty (the only child was a token that is being absorbed); otherwise no verdict
+                    from ..values import is_empty_fact
+                    facts_c = [x[0] for x in facts_at(cfg, c.node)]
+                    if any(is_empty_fact(facts_c, sn, empty=True) for sn in snaps):
+                        ok, why4 = True, 'the snapshot %s is empty on this path: nothing to re-attach' % snaps
+                    else:
+                        ok, why4 = None, 'a snapshot %s exists but its re-attachment after this statement was not found' % snaps
                 obs.append(Ob('R-LINK/L4', f.fq,
                               '`%s` on an existing node is preceded by a snapshot of the children and '
-                              'followed by their re-attachment' % unparse(c.ast), ok,
-                              ('snapshot %s, re-attached by `%s`' % (snaps, unparse(reatt.ast))) if ok else
-                              'children are dropped: no snapshot taken before / no element of it attached after',
+                              'followed by their re-attachment' % unparse(c.ast), ok, why4,
                               construct='clr:' + unparse(c.ast), line=cfg.nodes[c.node].lineno))
                 continue
             # bulk assignment of a non-empty value: every element needs its parent pointer set
@@ -358,12 +378,42 @@ def r_link(prog, tier):
                             okb = True
             if is_fresh and isinstance(v, ast.List) and not v.elts:
                 okb = True
+            if not okb:
+                # every element was put into the assigned list together with its parent pointer
+                for nm in src:
+                    adds = [m for m in cfg.eval_nodes() if m.kind == 'stmt' and isinstance(m.ast, ast.Expr)
+                            and isinstance(m.ast.value, ast.Call) and unparse(m.ast.value.func) == '%s.append' % nm
+                            and len(m.ast.value.args) == 1]
+                    if adds and all(any(path(p.x) == path(m.ast.value.args[0]) and path(p.q) == path(c.q)
+                                        and cfg.same_loop(m.id, p.node) and cfg.always_with(m.id, p.node) for p in pars)
+                                    for m in adds):
+                        ldefs = [v2 for (_, v2) in name_defs(f, nm) if isinstance(v2, ast.AST)]
+                        if ldefs and all(isinstance(v2, ast.List) and not v2.elts for v2 in ldefs):
+                            okb = True
             obs.append(Ob('R-LINK/L4', f.fq,
                           'bulk assignment `%s` sets the parent pointer of every element' % unparse(c.ast), okb,
                           'a loop over the assigned elements sets `.parent`' if okb else
                           'children are replaced wholesale but no loop updates the elements\' parent pointers',
                           construct='clr:' + unparse(c.ast), line=cfg.nodes[c.node].lineno))
     return obs, {'mover_functions': nfuncs}
+
+
+def _local_list_appends(func, x):
+    """[(list name, cfg node)] for statements `L.append(x)` with L a local that only ever holds lists made here."""
+    out = []
+    px = path(x)
+    if px is None:
+        return out
+    for m in func.cfg.eval_nodes():
+        if m.kind == 'stmt' and isinstance(m.ast, ast.Expr) and isinstance(m.ast.value, ast.Call) \
+                and isinstance(m.ast.value.func, ast.Attribute) and m.ast.value.func.attr == 'append' \
+                and isinstance(m.ast.value.func.value, ast.Name) and len(m.ast.value.args) == 1 \
+                and path(m.ast.value.args[0]) == px:
+            nm = m.ast.value.func.value.id
+            defs = [v for (_, v) in name_defs(func, nm) if isinstance(v, ast.AST)]
+            if nm in func.locals and defs and all(isinstance(v, ast.List) and not v.elts for v in defs):
+                out.append((nm, m.id))
+    return out
 
 
 def _derives_from(func, e, at, snaps, depth=0):
@@ -642,7 +692,7 @@ def r_keep(prog, tier):
                 mention = []
                 for a in cfg.assumes_at(d.node):
                     txt = unparse(a.ast)
-                    if 'children' in txt and set(a.loops) >= set(cfg.nodes[d.node].loops):
+                    if ('children' in txt or _fed_by_children(f, a.ast)) and set(a.loops) >= set(cfg.nodes[d.node].loops):
                         mention.append(txt)
                 wrong_node = None
                 for (fa, nid) in facts_at(cfg, d.node):
@@ -669,6 +719,9 @@ def r_keep(prog, tier):
                                     (prog.callee(c_, f) is not None and not prog.pure_call(c_, f))) for c_ in ast.walk(a.ast))]
                 if opaque_guard and not mention:
                     mention = opaque_guard
+                unmodelled = [e for e in evs if e.kind == 'OTHER']
+                if unmodelled and not mention:
+                    mention = ['unmodelled change of a child list: ' + unparse(unmodelled[0].ast)[:40]]
                 if narrow_guard:
                     verdict = False
                     detail = 'the guard `not %s` only looks for a child outside trees.PAIRPUNCT, but every token of trees.PUNCT is ' \
@@ -692,6 +745,24 @@ def r_keep(prog, tier):
                           % unparse(d.ast), verdict, detail, construct='keep:' + unparse(d.ast),
                           line=cfg.nodes[d.node].lineno))
     return obs, {}
+
+
+def _fed_by_children(f, cond, depth=0):
+    """Does a local named in the condition hold (or, for a table, receive) a value computed from some `.children`?"""
+    if depth > 2:
+        return False
+    for nm in set(x.id for x in ast.walk(cond) if isinstance(x, ast.Name) and x.id in f.locals):
+        vals = [v for (_, v) in name_defs(f, nm) if isinstance(v, ast.AST)]
+        for st in walk_own(f.node):
+            if isinstance(st, ast.Assign) and len(st.targets) == 1 and isinstance(st.targets[0], ast.Subscript) \
+                    and isinstance(st.targets[0].value, ast.Name) and st.targets[0].value.id == nm:
+                vals.append(st.value)
+        for v in vals:
+            if 'children' in unparse(v):
+                return True
+            if not isinstance(v, ast.Name) and _fed_by_children(f, v, depth + 1):
+                return True
+    return False
 
 
 def _all_punct_over(expr, ppaths):
